@@ -167,7 +167,7 @@ type vfTimedConn struct {
 }
 
 type vfTimedEvent struct {
-	kind     byte // 'r' read, 'w' write, 'd' deadline
+	kind     byte // 'r' read, 'w' write, 'd' read deadline, 'D' deadline for both directions, 'W' write deadline
 	at       time.Time
 	deadline time.Time
 }
@@ -183,6 +183,15 @@ func (c *vfTimedConn) Write(p []byte) (int, error) {
 func (c *vfTimedConn) SetReadDeadline(t time.Time) error {
 	c.events = append(c.events, vfTimedEvent{kind: 'd', at: time.Now(), deadline: t})
 	return c.VfConn.SetReadDeadline(t)
+}
+
+func (c *vfTimedConn) SetDeadline(t time.Time) error {
+	c.events = append(c.events, vfTimedEvent{kind: 'D', at: time.Now(), deadline: t})
+	return c.VfConn.SetDeadline(t)
+}
+func (c *vfTimedConn) SetWriteDeadline(t time.Time) error {
+	c.events = append(c.events, vfTimedEvent{kind: 'W', at: time.Now(), deadline: t})
+	return c.VfConn.SetWriteDeadline(t)
 }
 
 //vf:harness property=C15 nopanic reach=keepalive-second-idle,keepalive-second-header,keepalive-final-idle steps=8000000
@@ -365,7 +374,7 @@ func vfH_C15_stalled_peer() {
 	}
 }
 
-//vf:assume C15-mitm-handshake: a CONNECT that is MITM'd, with crypto/tls modelled as a transparent layer (8.10, so model-only): the 200 reply is written, the client's hello (one TLS record) arrives in a later segment, then one inner request; the MITM handshake timeout is a symbolic duration in [0, 2^40) ns; the deadline of the context that bounds the handshake is compared with the clock readings the connection took: it is never earlier than the limit counted from the moment the 200 reply was written (the earliest moment the handshake phase can be said to begin) and never later than the limit counted from the first event after the hello's first byte was delivered; limit 0 means no deadline
+//vf:assume C15-mitm-handshake: a CONNECT that is MITM'd, with crypto/tls modelled as a transparent layer (8.10, so model-only): the 200 reply is written, the client's hello (one TLS record) arrives in a later segment, then one inner request; the MITM handshake timeout is a symbolic duration in [0, 2^40) ns; the deadline that bounds the handshake (of the context given to it, or armed on the connection while it runs) is compared with the clock readings the connection took: it is never earlier than the limit counted from the moment the 200 reply was written (the earliest moment the handshake phase can be said to begin) and never later than the limit counted from the first event after the hello's first byte was delivered; limit 0 means no deadline; after the handshake no deadline for writes is left armed (write-timeout unset)
 
 //vf:harness property=C15 nopanic modelonly reach=mitm-handshake-timed,mitm-handshake-unlimited steps=8000000
 func vfH_C15_mitm_handshake() {
@@ -394,6 +403,22 @@ func vfH_C15_mitm_handshake() {
 	if wrote < 0 || hello < 0 || hello+1 >= len(conn.events) {
 		return
 	}
+	// the handshake may be bounded by its context or by a deadline armed on the connection while it runs
+	var connDeadline time.Time
+	writesArmed := false
+	for _, e := range conn.events[hello:] {
+		if e.kind == 'D' || e.kind == 'W' {
+			writesArmed = !e.deadline.IsZero()
+			if e.kind == 'D' && connDeadline.IsZero() {
+				connDeadline = e.deadline
+			}
+		}
+	}
+	if !has && !connDeadline.IsZero() {
+		deadline, has = connDeadline, true
+	}
+	// write-timeout is unset: once the handshake is over its limit bounds nothing any more
+	vfrt.Assert(!writesArmed, "mitm-handshake/no-deadline-of-the-handshake-left-armed-on-the-connection")
 	if limit == 0 {
 		vfrt.Reach("mitm-handshake-unlimited")
 		vfrt.Assert(!has, "mitm-handshake/no-limit-means-no-deadline")
